@@ -97,7 +97,7 @@ Theorem c01_strict_refuted : strict_witness 7 /\ strict_witness 15 /\ strict_wit
 Proof. exact strict_refuted. Qed.
 Print Assumptions c01_strict_refuted.
 
-(* Before the two repairs (e132014, 9b2bd15) "every other request receives an error" was false:
+(* Before the two repairs (335bec7, a68ed8d) "every other request receives an error" was false:
    a POST with an unparsable Origin header got an empty 200 (shape 68), and an HTML client with a
    password-only session under [U2F] got the second-factor page with status 200 (shape 6). *)
 Theorem c01_old_refuted :
